@@ -4,7 +4,7 @@ import Verif.Model.Renew
 
   Two kinds of lines, `key=value` fields separated by single spaces, first field the kind:
 
-  gate mode=coded|spec rev=no|yes|err db=none|gone|<prov> ext=none|bad|gone|<prov> nyv=0|1 exp=0|1
+  gate mode=coded|spec rev=no|yes|err db=none|gone|<prov>[+ra] ext=none|bad|gone|<prov> nyv=0|1 exp=0|1
        [entry=token tok=<parses><claimsVerify><tokenUnused><claimsValid><audienceOk><issuerOk>]
       <prov> = ctl:<d><a><c> (d = renewal disabled, a = allow after expiry, c = n|a|r custom func)
              | base | uninit
@@ -74,7 +74,9 @@ def db? (t : String) : Option DbLookup :=
   match t with
   | "none" => some .noRecord
   | "gone" => some .gone
-  | _ => (prov? t).map .found
+  | _ =>
+    if t.endsWith "+ra" then (prov? (t.dropEnd 3).toString).map (DbLookup.found · true)
+    else (prov? t).map (DbLookup.found · false)
 
 def extl? (t : String) : Option ExtLookup :=
   match t with
@@ -208,7 +210,7 @@ def fidelity (isRekey : Bool) (kv : List (String × String)) : Option String := 
     parentSKI := (← str? (← g "aki")), skiOf := fun _ => nski }
   -- the certificate was just issued by a present provisioner with default claims; the two clock
   -- comparisons are inputs
-  let i : GateIn := ⟨.no, .found (.ctl false false .none), .found (.ctl false false .none),
+  let i : GateIn := ⟨.no, .found (.ctl false false .none) false, .found (.ctl false false .none),
     (← bool? (← g "nyv")), (← bool? (← g "exp"))⟩
   match renew current env i old pk with
   | .crash => pure "crash"
